@@ -487,7 +487,7 @@ impl StStats {
 		self.resizes_immediate += o.resizes_immediate;
 		self.resizes_deferred += o.resizes_deferred;
 		self.sigs.extend(o.sigs);
-		if self.samples.len() < 4 {
+		if self.samples.len() < 2 {
 			self.samples.extend(o.samples);
 		}
 		self.fails.extend(o.fails);
@@ -3201,13 +3201,13 @@ fn worker_probe(args: &[String]) -> i32 {
 	{
 		let store = open_store(&format!("{}/big", args[0]), None).unwrap();
 		let r = store.batch().and_then(|mut b| {
-			for i in 0..1500u32 {
+			for i in 0..3000u32 {
 				b.put(SPACE_KEYS[0], format!("big{:05}", i).as_bytes(), &[1u8; 400])?;
 			}
 			b.commit()
 		});
 		res.insert(
-			"single_batch_600KB_into_fresh_1MiB_map".into(),
+			"single_batch_1.2MB_into_fresh_1MiB_map".into(),
 			json!(match r {
 				Ok(()) => "ok".to_string(),
 				Err(e) => format!("{:?}", e),
@@ -3759,7 +3759,7 @@ fn main_san(run: &Run, scratch: &Scratch, kind: &str) {
 		seed: seed ^ 0x5A,
 		dir: scratch.sub("san-mt"),
 		target_keys: 2500,
-		max_batches: if kind == "valgrind" { 160 } else { 260 },
+		max_batches: if kind == "valgrind" { 260 } else { 320 },
 		max_secs: 900,
 		n_point: 2,
 		n_iter: 1,
